@@ -83,3 +83,20 @@ contract('PybindWrapper._partial_match', params={'namespaces1': 'list[str]', 'na
 contract('PybindWrapper._gen_module_var', params={'namespaces': 'list[str]'}, returns='str', result_is='module_var(self, namespaces)')
 contract('PybindWrapper._add_namespaces', params={'name': 'str', 'namespaces': 'list[str]'}, returns='str',
          result_is='qualified(name, namespaces)')
+
+# ---- C17: which of several same-named, same-parameter-name documented overloads is used
+DKEY = "cpp_class + '.' + cpp_method + '(' + (','.join(method_args_names) if len(method_args_names) > 0 else '') + ')'"
+contract('XMLDocParser.determine_documenting_index',
+         params={'cpp_class': 'str', 'cpp_method': 'str', 'method_args_names': 'list[str]', 'member_defs': 'list[any]'},
+         returns='int', modifies=['dict(self._memory)'],
+         requires=['implies((%s) in self._memory, self._memory[%s] >= 0)' % (DKEY, DKEY)],
+         ensures=['0 <= result', 'implies(len(member_defs) >= 1, result < len(member_defs))', 'self._memory[%s] >= 0 or len(member_defs) <= 1' % DKEY,
+                  # a single candidate (or none): nothing is remembered
+                  'implies(len(member_defs) <= 1, result == 0 and dom(self._memory) == old(dom(self._memory)) '
+                  'and vals(self._memory) == old(vals(self._memory)))',
+                  # several candidates: the k-th request for this signature gets the k-th one (the last one once they run out)
+                  'implies(len(member_defs) > 1, (%s) in self._memory)' % DKEY,
+                  'implies(len(member_defs) > 1, self._memory[%s] == (old(self._memory[%s]) + 1 if old((%s) in self._memory) else 0))' % (DKEY, DKEY, DKEY),
+                  'implies(len(member_defs) > 1, result == min(self._memory[%s], len(member_defs) - 1))' % DKEY,
+                  'implies(len(member_defs) > 1, dom(self._memory) == old(dom(self._memory)).set(%s, True))' % DKEY,
+                  'implies(len(member_defs) > 1, vals(self._memory) == old(vals(self._memory)).set(%s, self._memory[%s]))' % (DKEY, DKEY)])
